@@ -273,6 +273,18 @@ def render_e6(lname):
             "function main() -> void { { Cal c = new Cal(); } Mid m = new Mid(); m = null; echo(\"done\"); }\n" % ((lname,) * 4))
 
 
+def render_e7(lname):
+    """(seed C09-4) a field initialiser reads other fields and statics by their bare names; it runs while a constructor is active, and neither
+    that constructor's parameters and locals, nor the subclass constructor's, nor the creating function's are in its scope"""
+    return ("class Base { public int slots = 4; public int cap = slots * 2; public static int unit = 3; public int w = unit + slots;\n"
+            "  public constructor(int %s) -> Base { int t = %s + 1; echo(t); } public function twice(int v) -> int { return v * 2; } }\n"
+            "class Ring extends Base { public int extra = slots + cap; public int viaCall = twice(w); public constructor(int %s, int b) -> Ring { super(b); echo(%s); } }\n"
+            "class Lazy { public int slots = 6; public int cap = slots + 1; public constructor() -> Lazy { int %s = 70; echo(%s); } }\n"
+            "function make(int %s) -> Ring { return new Ring(%s, 50); }\n"
+            "function main() -> void { int %s = 9; Ring r = new Ring(100, %s); echo(r.slots); echo(r.cap); echo(r.w); echo(r.extra); echo(r.viaCall);\n"
+            "  Ring s = make(7); echo(s.cap); echo(s.extra); echo(s.viaCall); Lazy z = new Lazy(); echo(z.cap); }\n" % ((lname,) * 10))
+
+
 def e_items(tier):
     items = []
     for k in ((3, 4) if tier != "thorough" else (3, 4, 5)):
@@ -289,6 +301,7 @@ def e_items(tier):
         items.append((("E4", sn), [(sn, ln) for ln in (sn, "data", "qs", "a", "m")]))
     items.append((("E5",), [(ln,) for ln in ("add", "helper", "run", "twice", "free", "a", "main")]))
     items.append((("E6",), [(ln,) for ln in ("pending", "gain", "c", "m", "offset2")]))
+    items.append((("E7",), [(ln,) for ln in ("slots", "cap", "unit", "w", "extra", "viaCall", "v", "twice")]))
     return items
 
 
@@ -305,6 +318,8 @@ def _one_e(item):
         ref_src = render_e5("u0")
     elif tag[0] == "E6":
         ref_src = render_e6("u0")
+    elif tag[0] == "E7":
+        ref_src = render_e7("u0")
     else:
         ref_src = render_e2("plainS", "plainF", "W")
     r0 = vdrv.run_src(ref_src, gc="own", warn=0)
@@ -312,7 +327,7 @@ def _one_e(item):
         return tag, [("reference", ref_src, "the uniquely named variant did not run: %s %s" % (r0.status(), (r0.rec or {}).get("msg", r0["fd2"][:200])))], 1, None
     want = (r0.rec["status"], r0.rec["stdout"])
     for v in variants:
-        src = render_e1(list(v)) if tag[0] == "E1" else render_e3(*v) if tag[0] == "E3" else render_e4(*v) if tag[0] == "E4" else render_e5(*v) if tag[0] == "E5" else render_e6(*v) if tag[0] == "E6" else render_e2(*v)
+        src = render_e1(list(v)) if tag[0] == "E1" else render_e3(*v) if tag[0] == "E3" else render_e4(*v) if tag[0] == "E4" else render_e5(*v) if tag[0] == "E5" else render_e6(*v) if tag[0] == "E6" else render_e7(*v) if tag[0] == "E7" else render_e2(*v)
         r = vdrv.run_src(src, gc="own", warn=0)
         n += 1
         if r.crash:
@@ -325,7 +340,7 @@ def _one_e(item):
 
 
 def _one(item):
-    if item[0][0] in ("E1", "E2", "E3", "E4", "E5", "E6"):
+    if item[0][0] in ("E1", "E2", "E3", "E4", "E5", "E6", "E7"):
         return _one_e(item)
     if item[0][0] == "D":
         return _one_d((item[0][1:], item[1]))
